@@ -280,6 +280,16 @@ def shutdownEntry (d : Drv) (keeps : Bool) (w : Option SErr) : Drv × Option CEr
   | .nothing => (d, none)
   | .write => shutdownWrite d w
 
+/-- `Drop for server::Connection` (h3/src/server/connection.rs):
+    `self.inner.close_connection(Code::H3_NO_ERROR, "Connection was closed by the server")` —
+    unconditionally, so also when the driver has closed the connection for an error before (a second
+    `close` call on the transport: reading R-05) and also when the error cell holds an error the driver
+    has not acted on.  `client::Connection` has no `Drop`: its counterpart — the last `SendRequest`
+    dropped — raises H3_NO_ERROR *through the error cell* (`handle_connection_error_on_stream`), like
+    any handle of `H3.ErrCell`, and therefore never after another error. -/
+def dropConn (server : Bool) (d : Drv) : Drv :=
+  if server then { d with closes := d.closes ++ [CODE_H3_NO_ERROR] } else d
+
 /-- a transport given by a script: the answers to successive calls, whatever the call (used up = `Pending`) -/
 def scriptTr : Transport (List Ans) :=
   { call := fun l _ => match l with
